@@ -101,8 +101,11 @@ class Trait(object):
         if num:
             raise exception.TraitInUse(name=name)
 
+        # The in-use check above is about the row that was looked up by name
+        # before this transaction: delete that row only (a racing request
+        # may have deleted and re-created the trait under a new identifier).
         res = context.session.query(models.Trait).filter_by(
-            name=name).delete()
+            id=_id, name=name).delete()
         if not res:
             raise exception.TraitNotFound(name=name)
 
